@@ -140,6 +140,11 @@ def run(fx, tier):
                 key='C03:R-OWN:set_dup<-%s::%s(%s)' % (caller.cls, caller.n, caller.tag),
                 where='%s:%d' % (caller.path_file(), line))
     set_dup_rule(fx, v, 'C03')
+    # an acknowledgement that arrives before its write is reported complete is parked; it must neither be lost nor go stale (shared with C01)
+    from c01 import fast_reply_rules
+    if 'R-DOM' not in v.rules:
+        v.rule('R-DOM', 'parked acknowledgements: purged on exactly the paths that start a stream write, only by the writer; stored only by dispatch(); used once')
+    fast_reply_rules(fx, v, 'C03')
     v.expect_min('R-CGRAPH', 30, 'paths of QoS 2 states')
     v.expect_min('R-FLOW', 40, 'send paths')
     v.expect_min('R-OWN', 10, 'set_dup callers/writes × TUs')
